@@ -7361,16 +7361,28 @@ pack_return_value(ostream &out, int indent_level, FunctionRemap *remap,
     const InterrogateType &itype = idb->get_type(type_index);
     string safe_name = make_safe_name(itype.get_scoped_name());
 
-    indent(out, indent_level)
-      << "return PyObject_CallFunction((PyObject *)Dtool_Ptr_" << safe_name;
-
     CPPType *underlying_type = ((CPPEnumType *)itype._cpptype)->get_underlying_type();
-    if (TypeManager::is_unsigned_integer(underlying_type)) {
-      out << ", \"k\", (unsigned long)";
+    bool is_unsigned = TypeManager::is_unsigned_integer(underlying_type);
+
+    if (isExportThisRun(itype._cpptype)) {
+      indent(out, indent_level)
+        << "return PyObject_CallFunction((PyObject *)Dtool_Ptr_" << safe_name;
+
+      if (is_unsigned) {
+        out << ", \"k\", (unsigned long)";
+      } else {
+        out << ", \"l\", (long)";
+      }
+      out << "(" << return_expr << "));\n";
+
     } else {
-      out << ", \"l\", (long)";
+      // No Python type object has been created for this enum, since it is not
+      // exported by this library.  Return the underlying integer value.
+      indent(out, indent_level)
+        << "return Dtool_WrapValue(("
+        << (is_unsigned ? "unsigned long" : "long")
+        << ")(" << return_expr << "));\n";
     }
-    out << "(" << return_expr << "));\n";
 
   } else if (return_type->new_type_is_atomic_string() ||
       TypeManager::is_simple(type) ||
